@@ -51,6 +51,113 @@ def _axes_tuple(v):
     return "?"
 
 
+# ------------------------------------------------------------------------------------------- rolls as shifts
+from fractions import Fraction as _Fr
+import math as _math
+
+
+def _affine_parity(v, nsyms, parity):
+    """value of an integer expression as alpha*k + beta after N := 2k + parity (k a large positive integer); None if
+    the expression is not built from N, constants, + - * and floor division / int() by constants"""
+    if isinstance(v, (int, float)):
+        return (_Fr(0), _Fr(v).limit_denominator(1 << 20))
+    if not isinstance(v, Rat):
+        return None
+    if not v.den_is_one():
+        d = v.den
+        if len(d) != 1 or list(d.keys())[0] != ():
+            return None
+    al, be = _Fr(0), _Fr(0)
+    dconst = complex(list(v.den.values())[0]) if v.den else 1
+    for m, c in v.num.items():
+        c = complex(c) / dconst
+        if c.imag:
+            return None
+        ta, tb = _Fr(0), _Fr(c.real).limit_denominator(1 << 20)
+        for a, e in m:
+            if e.denominator != 1 or e < 0:
+                return None
+            for _ in range(int(e)):
+                x = _affine_atom(a, nsyms, parity)
+                if x is None:
+                    return None
+                xa, xb = x
+                if ta != 0 and xa != 0:
+                    return None        # quadratic in k
+                ta, tb = ta * xb + tb * xa, tb * xb
+        al += ta
+        be += tb
+    return (al, be)
+
+
+def _affine_atom(a, nsyms, parity):
+    if isinstance(a, Sym):
+        if a.name in nsyms:
+            return (_Fr(2), _Fr(parity))
+        return None
+    if isinstance(a, Fn):
+        if a.name == "floordiv" and len(a.args) == 2:
+            x = _affine_parity(a.args[0], nsyms, parity)
+            y = a.args[1].real_const() if isinstance(a.args[1], Rat) else None
+            if x is None or not y or y <= 0:
+                return None
+            al, be = x[0] / _Fr(y).limit_denominator(1 << 20), x[1] / _Fr(y).limit_denominator(1 << 20)
+            if al.denominator != 1:
+                return None
+            return (al, _Fr(_math.floor(be)))
+        if a.name in ("int", "trunc") and len(a.args) >= 1:
+            x = _affine_parity(a.args[0], nsyms, parity)
+            if x is None or x[0].denominator != 1:
+                return None
+            al, be = x
+            if al > 0 or (al == 0 and be >= 0):
+                return (al, _Fr(_math.floor(be)))
+            return (al, _Fr(_math.ceil(be)))       # negative values truncate towards zero
+        if a.name in ("floor",) and len(a.args) >= 1:
+            x = _affine_parity(a.args[0], nsyms, parity)
+            if x is None or x[0].denominator != 1:
+                return None
+            return (x[0], _Fr(_math.floor(x[1])))
+    return None
+
+
+def classify_roll(shift, nsyms):
+    """'fftshift' / 'ifftshift' if numpy.roll(x, shift, axis) along an axis of length N equals that shift for EVERY N,
+    else a text saying what it is for even and for odd N.  (fftshift = roll by N//2, ifftshift = roll by -(N//2);
+    they coincide for even N.)"""
+    ev = _affine_parity(shift, nsyms, 0)
+    od = _affine_parity(shift, nsyms, 1)
+    if ev is None or od is None:
+        return None
+    (ae, be), (ao, bo) = ev, od
+    if any(x.denominator != 1 for x in (ae, be, ao, bo)):
+        return "roll by a non-integer amount"
+    even_ok = be == 0 and int(ae) % 2 == 1                      # s = +-k (mod 2k)
+    odd_f = ao == 1 + 2 * bo                                    # s = k   (mod 2k+1)
+    odd_i = ao == -1 + 2 * bo                                   # s = -k  (mod 2k+1)
+    if even_ok and odd_f:
+        return "fftshift"
+    if even_ok and odd_i:
+        return "ifftshift"
+    return "roll by %sk%+d for N = 2k and %sk%+d for N = 2k+1 (neither fftshift nor ifftshift on every length)" % (ae, be, ao, bo)
+
+
+def _as_shift(cur, nsym_for_axis):
+    """(name, axes) if the atom is a shift (fftshift / ifftshift / an equivalent numpy.roll), plus the shifted value"""
+    if isinstance(cur, Fn) and cur.name in SHIFTS:
+        kw = _kw(cur)
+        return (cur.name, _axes_tuple(kw.get("axes"))), cur.args[0]
+    if isinstance(cur, Fn) and cur.name == "roll" and len(cur.args) == 3:
+        ax = _axes_tuple(cur.args[2])
+        if ax in (None, "?") or len(ax) != 1:
+            return ("roll over flattened array or several axes", ax), cur.args[0]
+        kind = classify_roll(cur.args[1], nsym_for_axis(ax[0]))
+        if kind is None:
+            return None, None
+        return (kind, ax), cur.args[0]
+    return None, None
+
+
 class Wrapper(object):
     """decomposition of a transform wrapper's return value"""
     def __init__(self):
@@ -68,9 +175,10 @@ class Wrapper(object):
         return "%s . %s(axes=%s) . %s  * (%s)" % (sh(self.s_out), self.T, self.T_axes, sh(self.s_in), self.scale.show())
 
 
-def parse_wrapper(v, carries):
+def parse_wrapper(v, carries, nsym_for_axis=None):
     """v: Rat; carries(atom)->bool tells whether an atom contains the data.
     Returns Wrapper or a string explaining why the form is not recognised."""
+    nsym_for_axis = nsym_for_axis or (lambda ax: ())
     st = v.single_term()
     if st is None:
         return "value is not a single product term: %s" % v.show()[:200]
@@ -83,10 +191,9 @@ def parse_wrapper(v, carries):
     w = Wrapper()
     w.scale = Rat({rest: coef})
     cur = atom
-    if isinstance(cur, Fn) and cur.name in SHIFTS:
-        kw = _kw(cur)
-        w.s_out = (cur.name, _axes_tuple(kw.get("axes")))
-        nxt = cur.args[0]
+    sh, nxt = _as_shift(cur, nsym_for_axis)
+    if sh is not None:
+        w.s_out = sh
         cur = nxt.single_atom() if isinstance(nxt, Rat) else None
         if cur is None:
             return "output shift is applied to a non-atomic expression (scale inside the shift?)"
@@ -103,9 +210,10 @@ def parse_wrapper(v, carries):
         w.T_axes = _axes_tuple(ax) if ax is not None else DEFAULT_AXES.get(cur.name)
         inner = cur.args[0]
     ia = inner.single_atom() if isinstance(inner, Rat) else None
-    if isinstance(ia, Fn) and ia.name in SHIFTS:
-        w.s_in = (ia.name, _axes_tuple(_kw(ia).get("axes")))
-        inner = ia.args[0]
+    sh, nxt = _as_shift(ia, nsym_for_axis)
+    if sh is not None:
+        w.s_in = sh
+        inner = nxt
     w.inner = inner
     return w
 
